@@ -141,5 +141,34 @@ def run(R, tier):
                                     f'graded mode: {op} on grades {grades} in Algebra(signature={sig}) stores keys {tuple(r.keys())}, complete grades would be {want}')
 
 
+    # ---- graded mode against Model/Graded.v (completion of grades), evaluated in Coq ----
+    pool = algs.AlgPool()
+    cases = []
+    for it in range(40 if tier == 'quick' else 800):
+        d = rng.choice((2, 3, 3, 4))
+        spec = {'sig': [rng.choice((1, -1, 0, 0)) for _ in range(d)], 'graded': True}
+        alg = algs.make_impl(spec)
+        gsx = tuple(sorted(rng.sample(range(d + 1), rng.randint(1, 2))))
+        gsy = tuple(sorted(rng.sample(range(d + 1), rng.randint(1, 2))))
+        x = list(zip(alg.indices_for_grades[gsx], oc.random_values(rng, len(alg.indices_for_grades[gsx]), zero_p=0.15)))
+        y = list(zip(alg.indices_for_grades[gsy], oc.random_values(rng, len(alg.indices_for_grades[gsy]), zero_p=0.15)))
+        ref_, dfn = pool.ref(spec)
+        for op, mop in (('gp', 'ggp'), ('op', 'gop'), ('ip', 'gip'), ('add', 'gadd')):
+            mx, my = oc.make_mv(alg, [k for k, _ in x], [v for _, v in x]), oc.make_mv(alg, [k for k, _ in y], [v for _, v in y])
+            kind, out = oc.call_impl(alg, op, mx, my)
+            R.count('graded-model:' + op); R.case(('graded-model', algs.describe(spec), op, gsx, gsy), True)
+            exp = oc.mv_term(out) if kind == 'ok' else '[(99, 99)]'
+            chk = f'mv_eqb ({mop} Zops A {oc.mv_term(x)} {oc.mv_term(y)}) {exp}'
+            cases.append({'check': algs.with_alg(ref_, chk), 'defs': [dfn], 'show': algs.with_alg(ref_, f'{mop} Zops A {oc.mv_term(x)} {oc.mv_term(y)}', '[]'),
+                          'meta': {'spec': spec, 'op': op, 'x': x, 'y': y, 'impl': out if kind == 'ok' else f'{type(out).__name__}: {out}'}})
+    bad, shown = kv.run_cases('C13', cases, imports='Model.All Model.Graded')
+    for i in bad:
+        m = cases[i]['meta']
+        R.violation({'clause': 'graded-model', 'graded': True, 'null_generator': 0 in m['spec']['sig']},
+                    {'algebra': m['spec'], 'op': m['op'], 'x': m['x'], 'y': m['y'], 'impl': str(m['impl']), 'model': shown.get(i)},
+                    f'graded mode: {m["op"]} of {m["x"]}, {m["y"]} in Algebra({algs.describe(m["spec"])}) returns {m["impl"]}, '
+                    f'Model/Graded.v (complete grades, default-mode coefficients) gives {shown.get(i)}')
+
+
 def replay(R, rec):
     return False
